@@ -9,6 +9,8 @@ ENGINES = [
      "kind_free_text": "real LeaderController (RF=1, real WAL and Pebble through wrapping factories with gates) driven by rapid state machines"},
     {"name": "clusterx", "path": "harness/clusterx", "serves_properties": ["C01", "C02", "C03", "C04", "C05"],
      "kind_free_text": "3-5 real storage nodes + the real coordinator ShardController in one process over a harness-owned wire; generated fault programs; oracles over the recorded history"},
+    {"name": "clientx", "path": "harness/clientx", "serves_properties": ["C20", "C18"],
+     "kind_free_text": "the real public client over loopback gRPC against scripted fake OxiaClient servers"},
     {"name": "walx", "path": "harness/walx", "serves_properties": ["C09", "C10"],
      "kind_free_text": "rapid state machine + crash/corruption image generator over the real WAL against a list model"},
 ]
@@ -129,5 +131,12 @@ META = {
         "design_ref": "DESIGN.md 4.4, 5 C05",
         "level_text": 'Same engine; election safety checked on the recorded coordinator events and node answers.',
         "level_note": "Real goroutines and real 100 ms/1 s coordinator timers: schedules are explored, not enumerated; node crashes are graceful stops here.",
+    },
+    "C20": {
+        "engine": "clientx", "technique": "property-based testing of the real client against scripted fake servers (differential: per-operation answer function)",
+        "design_ref": "DESIGN.md 4.6, 5 C20",
+        "level_text": "Generated call streams, batching configurations, per-shard timings and error placements against the "
+                      "unmodified client library over loopback gRPC; each result checked against the answer function of its own operation.",
+        "level_note": "Loopback TCP and real timers (linger, retry backoff); hangs are inconclusive.",
     },
 }
